@@ -20,6 +20,7 @@ func VerifHarness_C09_Handler() {
 	r := &http.Request{Method: verifNondetString("method"), Body: verifBody()}
 	h.ServeHTTP(w, r)
 
+	verifAssert(verifNoLocksHeld(), "no lock is still held when the handler returns (a later request cannot hang)")
 	verifAssert(verifRespHeaderCount() == 1, "exactly one status line is written")
 	if r.Method != http.MethodPost {
 		verifAssert(verifRespStatus() == 405 && verifRespWriteCount() == 0, "method other than POST: 405 and no body")
@@ -31,6 +32,7 @@ func VerifHarness_C09_Handler() {
 		verifAssert(verifRespStatus() == 400 && verifRespBodyIsError("malformed_body"), "unreadable or undecodable body: 400 malformed_body")
 		return
 	}
+	verifAssert(verifBodyWellFormed(), "a body that is not one well-formed JSON document never reaches the prover")
 	verifAssert(verifHappened("call:ProveInsertion") == (mode == InsertionMode), "the prover of the configured mode is used")
 	if verifHappened("prove_ok") {
 		verifAssert(verifRespStatus() == 200 && verifRespBodyIsProof(), "valid batch: 200 with the marshalled proof")
